@@ -85,6 +85,13 @@ def lookup_tables(tier, seed):
     for kv in J.key_tuples(K6, 4 if tier == 'quick' else 5):
         rows = [(k, 'id%d' % i, 'v%d' % i) for i, k in enumerate(kv)]
         out.append(('k', [('k', 'id', 'v')] + rows))
+    # value cells that are None / falsy / repeated: a lookup that tests the stored VALUE instead of key
+    # membership (dict.get(k) is None, `not d.get(k)`) is only visible with such values
+    K3 = spaces.K3(seed)
+    vcells = list(itertools.product(K3, [None, 0, 'x']))
+    for kv in J.key_tuples(vcells, 3):
+        rows = [(k[0], None if i % 2 else 'id%d' % i, k[1]) for i, k in enumerate(kv)]
+        out.append(('k', [('k', 'id', 'v')] + rows))
     if tier == 'quick':
         cells = list(itertools.product(K4, [None, r['i1']]))
     else:
